@@ -1,14 +1,15 @@
-(** * The success exit of EPA over the reals (C07). *)
-From Coq Require Import Reals Lra Psatz.
-From D3 Require Import Base.Ops Base.Vec Base.RVec Spec.Convex Model.Epa.
+(** * EPA over the reals (C07): the success exit, the loop invariant "every face normal is a unit
+      vector or zero", and the orientation of the initial tetrahedron. *)
+From Coq Require Import Reals Lra Psatz List Bool.
+From D3 Require Import Base.Ops Base.Vec Base.RVec Base.RVec2 Spec.Convex Model.DistPrim Proofs.DistBase Proofs.Mpr Model.Epa.
+Import ListNotations.
 Local Open Scope R_scope.
 
-(** PARTIAL (named so in Props/C07.v): only the exit step is modelled.  If the search direction n is a unit
-    vector and the two support calls return support points of A along n and of B along -n, then after
-    translating B by the returned vector no point of A is beyond any point of B along n (no residual overlap
-    in that direction), and the two returned support points lie in one plane orthogonal to n (plane gap 0).
-    Missing: that n is the direction of minimum extent (needs the polytope invariant, not modelled), and that
-    the Euclidean gap is 0 (needs mtv to be a point of A - B). *)
+(** ** the exit step *)
+(** If the search direction n is a unit vector and the two support calls return support points of A along n
+    and of B along -n, then after translating B by the returned vector no point of A is beyond any point of B
+    along n (no residual overlap in that direction), the two returned support points lie in one plane
+    orthogonal to n (plane gap 0), and |mtv| is the extent of A - B along n. *)
 Theorem epa_exit_separates (A B : set3) (n pa pb : V3R) :
   norm n = 1 ->
   is_support A n pa -> is_support B (vneg n) pb ->
@@ -30,4 +31,184 @@ Proof.
   - replace (vsub pa (vadd pb mtv)) with (vsub (vsub pa pb) mtv) by (vsimp; f_equal; ring).
     rewrite dot_sub_l, Hm. ring.
   - unfold mtv, epa_exit_mtv, epa_new_point. rewrite norm_scale, Hn. ring.
+Qed.
+
+Ltac case_if := match goal with
+  | |- context [if ?c then _ else _] => destruct c
+  | H : context [if ?c then _ else _] |- _ => destruct c
+  end.
+
+(** ** loop invariant: normals are unit or zero *)
+Definition uz (n : V3R) : Prop := n = vzero \/ norm n = 1.
+Definition all_uz (fs : list (@face R)) : Prop := forall f, In f fs -> uz (fn f).
+
+Lemma compute_normal_uz (a b c : V3R) : uz (compute_normal (O:=ROps) a b c).
+Proof.
+  unfold compute_normal, uz.
+  destruct (norm_vector_unit_or_zero (cross (vsub b a) (vsub c a))) as [(_ & H)|(_ & H)]; auto.
+Qed.
+
+Lemma uz_neg n : uz n -> uz (vneg n).
+Proof.
+  intros [->|H]; [left|right].
+  - unfold vneg, vzero. cbn [vx vy vz]. ops_R. f_equal; ring.
+  - rewrite norm_neg. exact H.
+Qed.
+
+Lemma fix_ccw_uz (f : @face R) : uz (fn f) -> uz (fn (fix_ccw (O:=ROps) f)).
+Proof.
+  intros H. unfold fix_ccw. case_if; cbn [fn]; auto using uz_neg.
+Qed.
+
+Lemma closest_from_in : forall (fs : list (@face R)) best bd d f,
+  closest_from (O:=ROps) fs best bd = (d, f) -> f = best \/ In f fs.
+Proof.
+  induction fs as [|g r IH]; intros best bd d f H; simpl in H.
+  - inversion H; auto.
+  - case_if.
+    + destruct (IH _ _ _ _ H) as [->|Hi]; simpl; auto.
+    + destruct (IH _ _ _ _ H) as [->|Hi]; simpl; auto.
+Qed.
+
+Lemma closest_face_in (fs : list (@face R)) d f : closest_face (O:=ROps) fs = Some (d, f) -> In f fs.
+Proof.
+  destruct fs as [|g r]; simpl; [discriminate|]. intros H. inversion H as [H1].
+  destruct (closest_from_in _ _ _ _ _ H1) as [->|Hi]; simpl; auto.
+Qed.
+
+Lemma in_removelast {A : Type} (l : list A) x : In x (removelast l) -> In x l.
+Proof.
+  induction l as [|a l IH]; simpl; auto. destruct l as [|b l]; simpl in *; [tauto|].
+  intros [->|H]; auto.
+Qed.
+
+Lemma in_firstn {A : Type} : forall n (l : list A) x, In x (firstn n l) -> In x l.
+Proof. induction n as [|n IH]; intros [|a l] x; simpl; try tauto. intros [->|H]; auto. Qed.
+Lemma in_skipn {A : Type} : forall n (l : list A) x, In x (skipn n l) -> In x l.
+Proof. induction n as [|n IH]; intros [|a l] x; simpl; try tauto. intros H; auto. Qed.
+
+Lemma remove_face_sub (fs : list (@face R)) i f : In f (remove_face fs i) -> In f fs.
+Proof.
+  unfold remove_face. destruct (rev fs) as [|lastF r] eqn:E; simpl; [tauto|].
+  assert (HL : In lastF fs). { apply in_rev. rewrite E. simpl; auto. }
+  destruct (i =? length (removelast fs))%nat.
+  - apply in_removelast.
+  - intros H. apply in_app_or in H as [H|[<-|H]]; auto.
+    + apply in_removelast. eapply in_firstn; eauto.
+    + apply in_removelast. apply (in_skipn (S i)). exact H.
+Qed.
+
+Lemma remove_facing_sub : forall fuel eps ml (fs : list (@face R)) ls i w fs' ls',
+  remove_facing (O:=ROps) fuel eps ml fs ls i w = (fs', ls') -> forall f, In f fs' -> In f fs.
+Proof.
+  induction fuel as [|fuel IH]; intros eps ml fs ls i w fs' ls' H f Hf; cbn [remove_facing] in H.
+  - inversion H; subst; auto.
+  - destruct (nth_error fs i) as [g|]; [|inversion H; subst; auto].
+    destruct (faces_point eps g w).
+    + apply (remove_face_sub fs i). eapply IH; eauto.
+    + eapply IH; eauto.
+Qed.
+
+Lemma extend_uz : forall mf ls (fs : list (@face R)) w fs',
+  all_uz fs -> extend (O:=ROps) mf fs ls w = Some fs' -> all_uz fs'.
+Proof.
+  induction ls as [|(e0, e1) r IH]; intros fs w fs' Hu H; cbn [extend] in H.
+  - inversion H; subst; auto.
+  - destruct (mf <=? length fs)%nat; [discriminate|].
+    case_if.
+    + eapply IH; eauto.
+    + eapply IH; [|exact H]. intros f Hf. apply in_app_or in Hf as [Hf|[<-|[]]]; auto.
+      apply fix_ccw_uz. unfold mk_face. cbn [fn]. apply compute_normal_uz.
+Qed.
+
+Lemma init_faces_uz (s0 s1 s2 s3 : V3R) : all_uz (init_faces (O:=ROps) s0 s1 s2 s3).
+Proof.
+  intros f Hf. unfold init_faces in Hf. simpl in Hf.
+  destruct Hf as [<-|[<-|[<-|[<-|[]]]]]; unfold mk_face; cbn [fn]; apply compute_normal_uz.
+Qed.
+
+(** ** on success the returned vector is  (w.n) n  for the unit (or zero) normal n of a face of the
+    polytope and the support difference w in that direction -- for all inputs, any support functions *)
+Theorem epa_loop_success_shape : forall fuel (sup : V3R -> V3R * V3R) eps ml mf (fs : list (@face R)) mtv fs',
+  all_uz fs ->
+  epa_loop (O:=ROps) fuel sup eps ml mf fs = EpaSuccess mtv fs' ->
+  exists n, uz n /\ mtv = epa_exit_mtv (O:=ROps) n (fst (sup n)) (snd (sup n)).
+Proof.
+  induction fuel as [|fuel IH]; intros sup eps ml mf fs mtv fs' Hu H; cbn [epa_loop] in H; [discriminate|].
+  destruct (closest_face fs) as [(md, cf)|] eqn:Ec; [|discriminate].
+  destruct (sup (fn cf)) as (p1, p2) eqn:Es.
+  case_if.
+  - inversion H; subst. exists (fn cf). split.
+    + apply Hu. eapply closest_face_in; eauto.
+    + rewrite Es. reflexivity.
+  - destruct (remove_facing (length fs) eps ml fs [] 0 (vsub p1 p2)) as (fs1, ls) eqn:Er.
+    destruct (extend mf fs1 ls (vsub p1 p2)) as [fs2|] eqn:Ee; [|discriminate].
+    eapply IH; [|exact H].
+    eapply extend_uz; [|exact Ee].
+    intros f Hf. apply Hu. eapply remove_facing_sub; eauto.
+Qed.
+
+(** epa_success_upper: with true support mappings, a successful EPA returns a vector along a unit direction n
+    such that after translating B by it no point of A is beyond a point of B along n (residual overlap 0 along
+    n), and |mtv| equals the extent h_{A-B}(n) -- an UPPER bound of the penetration depth; or the zero vector
+    (degenerate zero normal).  Not proved: that n minimises the extent (minimality), see Props/C07.v. *)
+Theorem epa_success_upper (A B : set3) (sup : V3R -> V3R * V3R) (s0 s1 s2 s3 : V3R) fuel ml mf eps mtv fs :
+  (forall d, is_support A d (fst (sup d)) /\ is_support B (vneg d) (snd (sup d))) ->
+  epa (O:=ROps) sup s0 s1 s2 s3 fuel ml mf eps = EpaSuccess mtv fs ->
+  mtv = vzero \/
+  exists n, norm n = 1 /\
+    (forall a b, A a -> translate mtv B b -> dot (vsub a b) n <= 0) /\
+    (forall a b, A a -> B b -> dot (vsub a b) n <= dot mtv n) /\
+    norm mtv = Rabs (dot mtv n).
+Proof.
+  intros Hs H. unfold epa in H.
+  destruct (epa_loop_success_shape _ _ _ _ _ _ _ _ (init_faces_uz s0 s1 s2 s3) H) as (n & [Hz|Hn] & Hm).
+  - left. rewrite Hm, Hz. unfold epa_exit_mtv, vscale, vzero. cbn [vx vy vz]. ops_R. f_equal; ring.
+  - right. exists n. destruct (Hs n) as (HA & HB).
+    destruct (epa_exit_separates A B n _ _ Hn HA HB) as (E1 & E2 & E3). rewrite <- Hm in *.
+    assert (Hnn : dot n n = 1). { rewrite <- (norm_sq n), Hn. ring. }
+    assert (Hd : dot mtv n = dot (vsub (fst (sup n)) (snd (sup n))) n).
+    { rewrite Hm. unfold epa_exit_mtv, epa_new_point. rewrite dot_scale_l, Hnn. ring. }
+    repeat split; auto.
+    + intros a b Ha Hb. destruct HA as (_ & HA). destruct HB as (_ & HB).
+      specialize (HA a Ha). specialize (HB b Hb).
+      rewrite !(dot_comm _ (vneg n)), !dot_neg_l in HB. rewrite !(dot_comm n) in HB.
+      rewrite Hd, !dot_sub_l. lra.
+    + rewrite E3, Hd. reflexivity.
+Qed.
+
+(** ** the initial tetrahedron after the orientation step (3c14c49) *)
+Definition tet_det (s0 s1 s2 s3 : V3R) : R := dot (cross (vsub s1 s0) (vsub s2 s0)) (vsub s3 s0).
+
+(** raw (unnormalised) normal of a face and the vertex opposite to it *)
+Definition raw_normal (f : @face R) : V3R := cross (vsub (fb f) (fa f)) (vsub (fc f) (fa f)).
+
+(** for a non-degenerate simplex every initial face is wound such that its raw normal points AWAY from the
+    opposite vertex (the list pairs each face with the vertex it does not contain) *)
+Theorem init_faces_outward (s0 s1 s2 s3 : V3R) :
+  tet_det s0 s1 s2 s3 <> 0 ->
+  let b := if init_flip (O:=ROps) s0 s1 s2 s3 then s2 else s1 in
+  let c := if init_flip (O:=ROps) s0 s1 s2 s3 then s1 else s2 in
+  init_faces (O:=ROps) s0 s1 s2 s3 = [mk_face s0 b c; mk_face s0 c s3; mk_face s0 s3 b; mk_face b s3 c] /\
+  dot (raw_normal (mk_face (O:=ROps) s0 b c)) (vsub s3 s0) < 0 /\
+  dot (raw_normal (mk_face (O:=ROps) s0 c s3)) (vsub b s0) < 0 /\
+  dot (raw_normal (mk_face (O:=ROps) s0 s3 b)) (vsub c s0) < 0 /\
+  dot (raw_normal (mk_face (O:=ROps) b s3 c)) (vsub s0 b) < 0.
+Proof.
+  intros Hd b c. split; [reflexivity|].
+  unfold raw_normal, mk_face. cbn [fa fb fc].
+  unfold b, c, init_flip. ops_R. fold (tet_det s0 s1 s2 s3).
+  destruct (Rltb 0 (tet_det s0 s1 s2 s3)) eqn:E; rb_hyp E.
+  - (* flipped: b = s2, c = s1; every quantity equals - det *)
+    assert (H1 : dot (cross (vsub s2 s0) (vsub s1 s0)) (vsub s3 s0) = - tet_det s0 s1 s2 s3) by (unfold tet_det; vsimp; ring).
+    assert (H2 : dot (cross (vsub s1 s0) (vsub s3 s0)) (vsub s2 s0) = - tet_det s0 s1 s2 s3) by (unfold tet_det; vsimp; ring).
+    assert (H3 : dot (cross (vsub s3 s0) (vsub s2 s0)) (vsub s1 s0) = - tet_det s0 s1 s2 s3) by (unfold tet_det; vsimp; ring).
+    assert (H4 : dot (cross (vsub s3 s2) (vsub s1 s2)) (vsub s0 s2) = - tet_det s0 s1 s2 s3) by (unfold tet_det; vsimp; ring).
+    rewrite H1, H2, H3, H4. lra.
+  - assert (Hneg : tet_det s0 s1 s2 s3 < 0) by lra.
+    assert (H1 : dot (cross (vsub s1 s0) (vsub s2 s0)) (vsub s3 s0) = tet_det s0 s1 s2 s3) by reflexivity.
+    assert (H2 : dot (cross (vsub s2 s0) (vsub s3 s0)) (vsub s1 s0) = tet_det s0 s1 s2 s3) by (unfold tet_det; vsimp; ring).
+    assert (H3 : dot (cross (vsub s3 s0) (vsub s1 s0)) (vsub s2 s0) = tet_det s0 s1 s2 s3) by (unfold tet_det; vsimp; ring).
+    assert (H4 : dot (cross (vsub s3 s1) (vsub s2 s1)) (vsub s0 s1) = tet_det s0 s1 s2 s3) by (unfold tet_det; vsimp; ring).
+    rewrite H1, H2, H3, H4. lra.
 Qed.
